@@ -322,6 +322,23 @@ CLAIMS = {
             "token is written only under an emptiness test of the value",
             "equality of the parsed values themselves (trimming, one-element lists, empty values) is runtime",
             "§8.6 (added after the design: C39 was first declared not applicable)"),
+    "C15": ("symbolic interpretation (linear forms over attribute values, tracked locals, out-parameter effects) of the three "
+            "functions in which the DWARF reader computes a layout value itself",
+            "the member bit offset is DW_AT_data_bit_offset when present, else 8 * DW_AT_data_member_location plus the "
+            "endianness-converted DW_AT_bit_offset (R-MEMBEROFF, R-BITOFFCONV: 8 * byte_size - bit_offset - bit_size on "
+            "little endian, identity on big endian); a size in bits is 8 * DW_AT_byte_size, else DW_AT_bit_size (R-SIZEBITS) - "
+            "the formulas of the DWARF standard, in every world of attribute presence",
+            "the attribute values themselves and every layout the reader copies rather than computes: the oracle is a compiler",
+            "§8.6 (added after the design: C15 was first declared not applicable)"),
+    "C16": ("table extraction composed with the writer's vocabulary for the qualifier tags, finite-world interpretation of "
+            "build_function_type per kind of child DIE, path-sensitive must-pass for the void fallback",
+            "DW_TAG_const/volatile/restrict_type are recorded as the qualifier the writer spells with the same name "
+            "(R-CVCONV); a formal parameter yields a plain parameter, unspecified parameters the variadic marker, other "
+            "children nothing (R-VARIADIC); a function without DW_AT_type returns void (R-RETVOID); every formal parameter "
+            "contributes a parameter (R-PARMKEEP: today one whose type cannot be built is dropped silently - recorded, "
+            "replayed finding)",
+            "which DIEs exist, the types they refer to, names and typedef chains: runtime",
+            "§8.6 (added after the design: C16 was first declared not applicable)"),
     "C17": ("finite-world interpretation of the export gates and predicates, must-non-null dataflow at the sites that mark "
             "a declaration public, who-may-write rule, and set-complement discipline (key agreement, alias closure, filter "
             "equality, control dependence) of the two unreferenced-symbol functions",
@@ -368,8 +385,6 @@ CLAIMS = {
 }
 
 NOT_APPLICABLE = {
-    "C15": "values decoded from DWARF by elfutils and interpreted by the reader; the oracle is a compiler, nothing static bounds it",
-    "C16": "values decoded from DWARF (signatures) against source; runtime oracle",
     "C35": "generic memory safety / UB of 120 kLOC has no repo-specific structural rule; sanitizers are a dynamic technique",
 }
 
